@@ -57,6 +57,13 @@ theorem tie_copy_sites_parse_args :
     lookupSite "parse_args.args" Jap.Gen.HeapSites.copySites = true ∧
     lookupSite "save.cfg" Jap.Gen.HeapSites.copySites = true := by decide
 
+/-- `C08_fresh` counts one object per spec *of the configuration*; that this covers the specs derived from
+    signature defaults (lazy_instance) rests on `add_sub_defaults` writing them into `init_args` wherever a class
+    spec can sit — as the value, in a list, in a dict — so that no instantiation falls back to the one live default
+    object of the signature (probed on the live code). -/
+theorem tie_sub_defaults_expanded :
+    ["spec", "list", "dict", "instantiated-fresh"].all (fun k => lookupSite k Jap.Gen.HeapSites.subDefaults) = true := by decide
+
 /-! ## the finding class as an explicit decidable predicate -/
 
 def writableKind : Kind → Bool
